@@ -4,7 +4,7 @@
 //! that iterate on network-controlled values, and re-exports of crate-private items so that an
 //! external harness can drive them.
 
-pub use crate::half_connection::{HalfConnection, Config as HalfConfig, FrameSink, PacketSink, SendRateComp, FeedbackData};
+pub use crate::half_connection::{HalfConnection, Config as HalfConfig, FrameSink, PacketSink, SendRateComp, FeedbackData, LossIntervalQueue};
 pub mod frame { pub use crate::frame::*; }
 pub use crate::frame::serial::Serialize;
 pub use crate::frame::serial::verif_crc_compute as crc_compute;
